@@ -42,3 +42,91 @@ def do_conf_struct(req):
 
 
 HANDLERS = {'default_codes': do_default_codes, 'reachable': do_reachable, 'conf_struct': do_conf_struct}
+
+
+def _resolve(module, name):
+    import importlib
+    return getattr(importlib.import_module(module), name)
+
+
+def do_enum_iter(req):
+    out = []
+    for module, cls in req['classes']:
+        out.append([m.name for m in _resolve(module, cls)])
+    return {'members': out}
+
+
+def do_enum_value(req):
+    c = _resolve(req['module'], req['cls'])
+    v = c[req['name']].value
+    return {'value': v, 'violates': v != req['expect']}
+
+
+def _probe(names, probe, raised):
+    if probe.get('no_raise'):
+        return raised is not None
+    if raised is not None:
+        return True
+    if 'must_show' in probe:
+        return probe['must_show'] not in names
+    if 'must_not_show' in probe:
+        return probe['must_not_show'] in names
+    return False
+
+
+def do_flags(req):
+    f = _resolve(req['module'], req['func'])
+    raised = None
+    names = []
+    try:
+        names = [m.name for m in f(req['word'])]
+    except BaseException as e:  # noqa
+        raised = '%s: %s' % (type(e).__name__, e)
+    return {'names': names, 'raised': raised, 'violates': _probe(names, req['probe'], raised)}
+
+
+def do_decoder_field_names(req):
+    from pyvc import native_decoders as nd
+    import struct
+    run = req['run']
+    codes = dict(nd._codes())
+    for k, v in run.get('extra_codes', []):
+        codes[k] = v
+    evs = nd.build_events(run, codes)
+    p = nd.make_parser(run, codes)
+    raised = None
+    names = []
+    try:
+        r = p.handlers[run['name']](p, evs)
+        names = [m.name for m in getattr(r, req['field'])]
+    except BaseException as e:  # noqa
+        raised = '%s: %s' % (type(e).__name__, e)
+    return {'names': names, 'raised': raised, 'violates': _probe(names, req['probe'], raised)}
+
+
+def do_ioctl_text(req):
+    """independent _IOC inverse (bsd/sys/ioccom.h) compared with what the tool prints"""
+    import re
+    from pykdebugparser.trace_handlers.bsd import BscIoctl
+    w = req['request'] & 0xffffffff
+    dirs = {0x20000000: ['IOC_VOID'], 0x40000000: ['IOC_OUT'], 0x80000000: ['IOC_IN'], 0xc0000000: ['IOC_INOUT', 'IOC_IN | IOC_OUT']}
+    out = {'raised': None}
+    try:
+        text = str(BscIoctl([], 3, w, 0, ''))
+        out['text'] = text
+        m = re.search(r"_IOC\((.*), '(.)', (\d+), (\d+)\)", text, re.S)
+        if not m:
+            out['violates'] = True
+            return out
+        d, g, num, ln = m.group(1), m.group(2), int(m.group(3)), int(m.group(4))
+        want = dirs.get(w & 0xe0000000)
+        viol = (want is not None and d not in want) or ord(g) != (w >> 8) & 0xff or num != w & 0xff or ln != (w >> 16) & 0x1fff
+        out['violates'] = viol
+    except BaseException as e:  # noqa
+        out['raised'] = '%s: %s' % (type(e).__name__, e)
+        out['violates'] = True
+    return out
+
+
+HANDLERS.update({'enum_iter': do_enum_iter, 'enum_value': do_enum_value, 'flags': do_flags,
+                 'decoder_field_names': do_decoder_field_names, 'ioctl_text': do_ioctl_text})
